@@ -8,11 +8,13 @@ pub struct Rng {
     /// under one transaction id, an echo that happens to match …) far more often than by chance
     recent: [u16; 4],
     at: usize,
+    recent_units: [u8; 2],
+    at_unit: usize,
 }
 
 impl Rng {
     pub fn new(seed: u64) -> Self {
-        Rng { state: seed ^ 0x9E37_79B9_7F4A_7C15, recent: [0; 4], at: 0 }
+        Rng { state: seed ^ 0x9E37_79B9_7F4A_7C15, recent: [0; 4], at: 0, recent_units: [0xFF, 0], at_unit: 0 }
     }
     pub fn next(&mut self) -> u64 {
         self.state = self.state.wrapping_add(0x9E37_79B9_7F4A_7C15);
@@ -39,11 +41,14 @@ impl Rng {
     /// a unit / slave id: every fourth one from the borders of the address classes (broadcast 0,
     /// single devices 1…247, reserved 248…255 with the TCP default 255)
     pub fn unit(&mut self) -> u8 {
-        if self.chance(1, 4) {
-            *self.pick(&[0x00u8, 0x01, 0xF7, 0xF8, 0xFE, 0xFF])
-        } else {
-            self.u8()
+        // (… and every eighth one is a unit that was drawn shortly before: histories that come back)
+        if self.chance(1, 8) {
+            return self.recent_units[self.below(2)];
         }
+        let v = if self.chance(1, 4) { *self.pick(&[0x00u8, 0x01, 0xF7, 0xF8, 0xFE, 0xFF]) } else { self.u8() };
+        self.recent_units[self.at_unit % 2] = v;
+        self.at_unit += 1;
+        v
     }
     /// a non-zero 16-bit value as two big-endian bytes, often with one of the two bytes zero
     pub fn nonzero_be16(&mut self) -> [u8; 2] {
@@ -109,7 +114,7 @@ impl Rng {
         self.bits(n)
     }
     pub fn fork(&mut self) -> Rng {
-        Rng { state: self.next(), recent: self.recent, at: self.at }
+        Rng { state: self.next(), recent: self.recent, at: self.at, recent_units: self.recent_units, at_unit: self.at_unit }
     }
     /// random composition of `n` into positive parts
     pub fn composition(&mut self, n: usize) -> Vec<usize> {
